@@ -261,7 +261,7 @@ def _split_insts(out):
 
 
 PAIR_KINDS = ['lui+addi', 'lui+lw', 'lui+sw', 'auipc+addi', 'auipc+jalr', 'lui+addi/const', 'auipc+jalr/const',
-              'lui+addi/label', 'lui+lw/position', 'auipc+addi/position']
+              'lui+addi/label', 'lui+lw/position', 'auipc+addi/position', 'auipc+jalr/offset-const', 'lui+addi/offset-const']
 
 
 def _pair_rows(args):
@@ -373,6 +373,26 @@ def _pair_rows(args):
                 rows.append(['pair'] + _limbs(p) + [a, b2, c, d, PAIR_KINDS.index(kind), int(compress)])
             else:
                 refusals.append([src, rec['status']])
+    # pairs the assembler itself writes for a pc-relative value: call / tail / li %offset to an ABSOLUTE address held in a constant,
+    # behind an instruction that compression shortens (so the position the offset is taken from moves between the passes)
+    for v in values[:: max(1, len(values) // 60)]:
+        K = v % 2**32
+        for kind, line in (('auipc+jalr/offset-const', 'call K'), ('auipc+jalr/offset-const', 'tail K'), ('lui+addi/offset-const', 'li x9, %offset(K)')):
+            if 'jalr' in kind and K % 2:
+                continue
+            src = 'K = %s\naddi x8, x8, 1\n%s\n' % (spell(K), line)
+            rec = impl.assemble_recorded(src, compress=compress)
+            if rec['status'] != 'ok':
+                refusals.append([src, rec['status']])
+                continue
+            insts = _split_insts(rec['out'])
+            pos = 2 if insts[0][1] == -1 else 4
+            off = (K - pos) % 2**32
+            soff = off - 2**32 if off >= 2**31 else off
+            if len(insts) != 3 or -2048 <= soff <= 2047:
+                continue            # (a one-instruction li: no pair to judge)
+            (a, b), (c, d) = insts[1], insts[2]
+            rows.append(['pair'] + _limbs(off) + [a, b, c, d, PAIR_KINDS.index(kind), int(compress)])
     return rows, refusals
 
 
